@@ -9,6 +9,7 @@ import (
 	"bytes"
 	"encoding/json"
 	"fmt"
+	"github.com/goatcms/goatcore/filesystem/fsloop"
 	"reflect"
 	"sort"
 	"strings"
@@ -370,6 +371,9 @@ type layout struct {
 	MaxJob int               `json:"maxjob"`
 	Bound  int               `json:"bound"`
 	Base   string            `json:"base,omitempty"` // directory handed to Load ("" = the filespace root)
+	// ChanSize: capacity of the walker's queues (0 = the library's 1000): "whatever the number of files" -
+	// a directory with more entries than the queues hold, scaled down
+	ChanSize int `json:"queue_capacity,omitempty"`
 }
 
 func layouts(thorough bool) []layout {
@@ -387,15 +391,15 @@ func layouts(thorough bool) []layout {
 	}
 	// files of very different sizes (size-dependent code paths in the store)
 	out = append(out,
-		layout{"big-and-small", map[string]string{"big.json": bigDoc("b", 40), "small.json": `{"s":"S"}`}, 2, b, ""},
-		layout{"two-big", map[string]string{"x.json": bigDoc("x", 17), "y.json": bigDoc("y", 33)}, 2, b, ""},
+		layout{"big-and-small", map[string]string{"big.json": bigDoc("b", 40), "small.json": `{"s":"S"}`}, 2, b, "", 0},
+		layout{"two-big", map[string]string{"x.json": bigDoc("x", 17), "y.json": bigDoc("y", 33)}, 2, b, "", 0},
 	)
 	for _, mj := range []int{1, 2} {
 		out = append(out,
-			layout{"one-file", map[string]string{"en.json": `{"a":"A","n":{"x":"NX"}}`}, mj, b + 1, ""},
-			layout{"two-files", map[string]string{"en.json": `{"a":"A"}`, "pl.json": `{"b":"B","c":{"d":"CD"}}`}, mj, b, ""},
-			layout{"three-files-two-dirs", map[string]string{"en.json": `{"a":"A"}`, "d/pl.json": `{"b":"B"}`, "d/de.json": `{"c":"C"}`, "d/readme.txt": "not json"}, mj, b, ""},
-			layout{"nested-dir", map[string]string{"x/y/z.json": `{"deep":"D"}`, "top.json": `{"t":"T"}`}, mj, b, ""},
+			layout{"one-file", map[string]string{"en.json": `{"a":"A","n":{"x":"NX"}}`}, mj, b + 1, "", 0},
+			layout{"two-files", map[string]string{"en.json": `{"a":"A"}`, "pl.json": `{"b":"B","c":{"d":"CD"}}`}, mj, b, "", 0},
+			layout{"three-files-two-dirs", map[string]string{"en.json": `{"a":"A"}`, "d/pl.json": `{"b":"B"}`, "d/de.json": `{"c":"C"}`, "d/readme.txt": "not json"}, mj, b, "", 0},
+			layout{"nested-dir", map[string]string{"x/y/z.json": `{"deep":"D"}`, "top.json": `{"t":"T"}`}, mj, b, "", 0},
 		)
 	}
 	// the loaded directory is a sub-directory (three spellings); values with every kind of escape; files
@@ -407,6 +411,12 @@ func layouts(thorough bool) []layout {
 		pre := strings.TrimPrefix(base, "./")
 		out = append(out, layout{Name: "subdir-" + base, Files: map[string]string{pre + "en.json": `{"a":"A","n":{"x":"NX"}}`, pre + "more/pl.json": esc, pre + "en.json.bak": `{"a":"WRONG"}`, pre + "notes.jsonl": `{"a":"WRONG2"}`}, MaxJob: 2, Bound: 0, Base: base})
 	}
+	// more files in one directory than the walker's queues hold (queue capacity scaled down to 2)
+	many := map[string]string{}
+	for i := 0; i < 3; i++ {
+		many[fmt.Sprintf("f%d.json", i)] = fmt.Sprintf(`{"k%d":"V%d"}`, i, i)
+	}
+	out = append(out, layout{Name: "more-files-than-queue-capacity", Files: many, MaxJob: 2, Bound: 0, ChanSize: 1})
 	out = append(out, layout{Name: "escapes", Files: map[string]string{"e.json": esc, "z.json": `{"zz":"Z"}`}, MaxJob: 1, Bound: 1})
 	return out
 }
@@ -421,6 +431,10 @@ func loaderBody(l layout, o *loadObs) func() {
 	return func() {
 		*o = loadObs{}
 		workers.MaxJob = l.MaxJob
+		fsloop.ChanSize = 1000
+		if l.ChanSize > 0 {
+			fsloop.ChanSize = l.ChanSize
+		}
 		fs, _ := memfs.NewFilespace()
 		var ps []string
 		for p := range l.Files {
@@ -579,7 +593,9 @@ func run(c *fw.Ctx) {
 	shapes := []func(leaf string) string{
 		func(l string) string { return `{"k":` + l + `}` },
 		func(l string) string { return `{"a":{"b":` + l + `},"é":"x"}` },
-		func(l string) string { return `{ "a" : { "b" : { "c" : ` + l + ` } , "t": true, "n": null, "l": [1,"s"] } }` },
+		func(l string) string {
+			return `{ "a" : { "b" : { "c" : ` + l + ` } , "t": true, "n": null, "l": [1,"s"] } }`
+		},
 		func(l string) string { return `{"x":1.5,"a":{"a":` + l + `,"b":-1},"z":[]}` },
 	}
 	leafTexts(nsym, func(text string) {
@@ -779,7 +795,7 @@ var _ = bytes.Contains
 
 func init() {
 	fw.Register(&fw.Check{ID: "C20", Level: "exploration",
-		Rule: "all nested maps over keys {a,b,é}, and over {'' (the empty string), a}, with depth<=3 and <=3 (quick) / <=4 (thorough) leaves (the flat key '' alone is refused by the rebuild functions with an explicit error, which is accepted), plus deep maps (spine of depth 1..12 / 1..20 with 1-3 sibling leaves at the bottom, with and without a side leaf per level) (flatten/rebuild both ways, string variant); all JSON documents of 4 nested-object shapes whose string leaf ranges over every string of <=2 (quick) / <=3 (thorough) symbols from {a, quote, backslash, slash, newline, tab, U+0001, é, U+1F600} in every JSON spelling (incl. surrogate pairs) (raw and escaped), plus every number literal of <=5 (thorough 6) characters over {0,1,-,+,.,e,E} that the JSON grammar allows, and true/null/array leaves, compared with encoding/json (UseNumber); all flat maps from 8 prefix-free key sets x every value string of <=2/3 symbols from {a, quote, backslash, slash, newline, tab, 0x01, é, '<', U+2028, U+1F600, U+10000, U+FFFF, 0x7f, comma, colon, braces, bracket, blank} written compact and formatted (valid for encoding/json, same map, round trip); plus EVERY prefix-free set of <=3/<=4 keys from all 30 paths of depth <=2 over the segments {s, s1, s10, s-, é} (names that are prefixes of one another or sort around the separator); translation loader on 14 directory layouts (1-4 files, 1-40 keys per file; sub-directories as the loaded base in three spellings; escaped values; look-alike file names that must not be loaded) under every schedule with <= bound preemptions, with the race oracle on the loader's and the store's multi-word variables (incl. variables captured by the per-file callback). distinct = inputs/schedules",
-		Run: run, Replay: replay,
+		Rule: "all nested maps over keys {a,b,é}, and over {'' (the empty string), a}, with depth<=3 and <=3 (quick) / <=4 (thorough) leaves (the flat key '' alone is refused by the rebuild functions with an explicit error, which is accepted), plus deep maps (spine of depth 1..12 / 1..20 with 1-3 sibling leaves at the bottom, with and without a side leaf per level) (flatten/rebuild both ways, string variant); all JSON documents of 4 nested-object shapes whose string leaf ranges over every string of <=2 (quick) / <=3 (thorough) symbols from {a, quote, backslash, slash, newline, tab, U+0001, é, U+1F600} in every JSON spelling (incl. surrogate pairs) (raw and escaped), plus every number literal of <=5 (thorough 6) characters over {0,1,-,+,.,e,E} that the JSON grammar allows, and true/null/array leaves, compared with encoding/json (UseNumber); all flat maps from 8 prefix-free key sets x every value string of <=2/3 symbols from {a, quote, backslash, slash, newline, tab, 0x01, é, '<', U+2028, U+1F600, U+10000, U+FFFF, 0x7f, comma, colon, braces, bracket, blank} written compact and formatted (valid for encoding/json, same map, round trip); plus EVERY prefix-free set of <=3/<=4 keys from all 30 paths of depth <=2 over the segments {s, s1, s10, s-, é} (names that are prefixes of one another or sort around the separator); translation loader on 15 directory layouts (1-4 files, one of them with more files in one directory than the walker's queues hold - queue capacity scaled down to 1; 1-40 keys per file; sub-directories as the loaded base in three spellings; escaped values; look-alike file names that must not be loaded) under every schedule with <= bound preemptions, with the race oracle on the loader's and the store's multi-word variables (incl. variables captured by the per-file callback). distinct = inputs/schedules",
+		Run:  run, Replay: replay,
 		Assumptions: []string{"encoding/json is the reference JSON decoder", "loader values are %-free (Translate is a format API)", "2-3 preemptions, MaxJob 1-2 for the loader"}})
 }
